@@ -1451,6 +1451,10 @@ func buildSelectFieldsWithExpressions(fields []Field) (
 			}
 		}
 
+		// Parentheses around the whole item do not change what it is: classify "(AVG(t))" as
+		// AVG(t). The output column keeps the item's alias (or its original text).
+		f.Expression = stripEnclosingParens(f.Expression)
+
 		// Check if this is a complex aggregation expression
 		if isComplexAggregationExpression(f.Expression) {
 			// Parse complex aggregation expression
@@ -1562,6 +1566,18 @@ func buildSelectFieldsWithExpressions(fields []Field) (
 		}
 	}
 	return selectFields, fieldMap, expressions, postAggExpressions, nil
+}
+
+// stripEnclosingParens removes pairs of parentheses that enclose the whole expression:
+// "((SUM(a) + 1))" -> "SUM(a) + 1"; "(a) + (b)" is returned unchanged.
+func stripEnclosingParens(expr string) string {
+	for {
+		trimmed := strings.TrimSpace(expr)
+		if len(trimmed) < 2 || trimmed[0] != '(' || findMatchingParenInternal(trimmed, 0) != len(trimmed)-1 {
+			return expr
+		}
+		expr = trimmed[1 : len(trimmed)-1]
+	}
 }
 
 // isComplexAggregationExpression checks if an expression contains multiple aggregation functions or operators with aggregation functions
